@@ -220,7 +220,7 @@ def run(ck: Check):
         #     (every full cache costs a round trip to the multiprocessing manager: mem / hdf are slow)
         core = next(e for e in entries if e.name == "Sellar1")
         replay(core, cat.JSON, "simple", None)
-        replay(core, cat.JSON, "hdf-snapshot", None if T else 150)
+        replay(core, cat.JSON, "hdf-snapshot", 2500 if T else 150)
         replay(core, cat.JSON, "hdf-shared", 1500 if T else 120)
         replay(core, cat.JSON, "mem", 300 if T else 40)      # stops at Pickle while D10 stands
         replay(core, cat.SIMPLE, "simple", None if T else 300)
